@@ -1931,3 +1931,108 @@ func checkBirthdaySearchGivesUpOnlyAtABound(c *Ctx, rule string) {
 	}
 	c.Floor(rule, "candidate fetches in the birthday block search", n, 1)
 }
+
+// checkFirstSyncRetryConsultsPersistedBirthdayBlock: waitForSync retries syncWithChain with the birthday stamp it had
+// before the first attempt — nil for a freshly restored wallet. The branch that locates the birthday block and resets
+// the synced-to block to it must not be taken again once an earlier, later interrupted attempt has persisted the
+// birthday block (PutSyncedTo then refuses the reset, on every retry, until a restart: finding F47). Every path of
+// syncWithChain to the birthday search passes a read of the persisted birthday block.
+func checkFirstSyncRetryConsultsPersistedBirthdayBlock(c *Ctx, rule string) {
+	p := c.P
+	syn := p.Func("wallet", "Wallet", "syncWithChain")
+	if syn == nil {
+		c.Unresolved(rule, "wallet.Wallet.syncWithChain")
+		return
+	}
+	var reads func(g *ssa.Function, depth int) bool
+	reads = func(g *ssa.Function, depth int) bool {
+		if g == nil || depth > 3 {
+			return false
+		}
+		for _, f := range Closures(g) {
+			for _, ci := range callsOf(f) {
+				switch calleeShort(ci.Common()) {
+				case "BirthdayBlock", "FetchBirthdayBlock":
+					return true
+				}
+				if h := ci.Common().StaticCallee(); h != nil && h.Pkg == syn.Pkg && h != g && h.Parent() == nil && reads(h, depth+1) {
+					return true
+				}
+			}
+		}
+		return false
+	}
+	consults := func(ins ssa.Instruction) bool {
+		call, ok := ins.(*ssa.Call)
+		if !ok {
+			return false
+		}
+		switch calleeShort(&call.Call) {
+		case "BirthdayBlock", "FetchBirthdayBlock":
+			return true
+		}
+		for _, a := range call.Call.Args {
+			if mc, isMC := a.(*ssa.MakeClosure); isMC {
+				if f, isF := mc.Fn.(*ssa.Function); isF && reads(f, 1) {
+					return true
+				}
+			}
+		}
+		h := call.Call.StaticCallee()
+		return h != nil && h.Pkg == syn.Pkg && h != syn && h.Parent() == nil && reads(h, 1)
+	}
+	// the variable behind a tested value (the stamp lives on the heap: a closure assigns it)
+	cellOf := func(v ssa.Value) ssa.Value {
+		v = stripConv(v)
+		if u, ok := v.(*ssa.UnOp); ok && u.Op == token.MUL {
+			return u.X
+		}
+		return v
+	}
+	// the search is entered on "stamp == nil": the variable of the nil edges that dominate the site. The search is
+	// not reachable over an edge that says the same variable is NOT nil (the consultation is skipped exactly there; the
+	// variable is only ever assigned non-nil stamps afterwards)
+	preceded := func(site ssa.Instruction) bool {
+		cells := map[ssa.Value]bool{}
+		for b := site.Block(); b != nil; b = b.Idom() {
+			if d := b.Idom(); d != nil {
+				for si, s := range d.Succs {
+					if s == b && len(b.Preds) == 1 {
+						if f := edgeFactOf(d, si); f != nil && f.Kind == "nil" {
+							cells[cellOf(f.V)] = true
+						}
+					}
+				}
+			}
+		}
+		q := &PathQuery{Fn: syn, Barrier: consults,
+			EdgeBarrier: func(from *ssa.BasicBlock, si int) bool {
+				f := edgeFactOf(from, si)
+				return f != nil && f.Kind == "nonnil" && cells[cellOf(f.V)]
+			}}
+		q.Target = func(i ssa.Instruction, _ *ssa.BasicBlock) bool { return i == site }
+		return len(q.From(nil)) == 0
+	}
+	n := 0
+	for _, f := range p.regionOf(syn) {
+		for _, call := range callsNamed(f, "locateBirthdayBlock") {
+			n++
+			ok := true
+			if f == syn {
+				ok = preceded(call)
+			} else {
+				// the search sits in a part: the part's call sites in syncWithChain are what must be preceded
+				ok = false
+				for _, site := range p.realCallers(f) {
+					if site.Parent() != syn {
+						continue
+					}
+					ok = preceded(site.(ssa.Instruction))
+				}
+			}
+			c.Check(rule, "first-sync-retry-consults-persisted-birthday-block", call.Pos(), ok,
+				"syncWithChain can reach the birthday block search (and the reset of the synced-to block that follows it) without having read the persisted birthday block: waitForSync retries with the nil stamp of a freshly restored wallet, so after a first attempt that persisted the birthday block and was then interrupted every retry fails in PutSyncedTo until the wallet is restarted, and the recovery never resumes")
+		}
+	}
+	c.Floor(rule, "birthday block searches of syncWithChain", n, 1)
+}
